@@ -293,7 +293,7 @@ ELASTIC_THOROUGH = ["TRI10", "TRI15", "QUAD9", "TETRA10", "PRISM15", "PRISM18", 
 HEAVY = {"HEXA20", "HEXA27", "PRISM18"}
 
 
-def _beam_K(dim, timo, et, inclined, nL=3):
+def _beam_K(dim, timo, et, inclined, nL=3, reversed_=False):
     import contextlib, io
     from EasyFEA import Models, Simulations, Mesher, ElemType
     from EasyFEA.Geoms import Domain, Point, Line
@@ -306,7 +306,7 @@ def _beam_K(dim, timo, et, inclined, nL=3):
             p2 = Point(L * 0.6, L * 0.8, 0)
         else:
             p2 = Point(L / 3, 2 * L / 3, 2 * L / 3)
-        line = Line(Point(0, 0, 0), p2, L / nL)
+        line = Line(p2, Point(0, 0, 0), L / nL) if reversed_ else Line(Point(0, 0, 0), p2, L / nL)
         beam = Models.Beam.Isotropic(dim, line, sect, 210e3, v=0.3)
         mesh = Mesher().Mesh_Beams([beam], elemType=ElemType[et])
         simu = Simulations.Beam(mesh, beam, useTimoshenko=timo)
@@ -314,9 +314,10 @@ def _beam_K(dim, timo, et, inclined, nL=3):
     return K, np.asarray(simu.mesh.coord), simu.Get_dof_n()
 
 
-def ob_beam_kernel(dim, timo, et, inclined):
-    """free beam: K symmetric, positive semi-definite, K r == 0 for every rigid motion (translations; rotations carry the matching nodal rotation), rank == ndof - number of rigid motions."""
-    K, co, dn = _beam_K(dim, timo, et, inclined)
+def ob_beam_kernel(dim, timo, et, inclined, reversed_=False):
+    """free beam: K symmetric, positive semi-definite, K r == 0 for every rigid motion (translations; rotations carry the matching nodal rotation), rank == ndof - number of rigid motions.
+    reversed_: the line is drawn from its far end to the origin."""
+    K, co, dn = _beam_K(dim, timo, et, inclined, reversed_=reversed_)
     n = K.shape[0]
     Nn = n // dn
     if Nn != co.shape[0]:
@@ -346,21 +347,64 @@ def ob_beam_kernel(dim, timo, et, inclined):
             r[:, :3] = np.cross(a, co)
             r[:, 3 + k] = 1
             modes.append((nm, r.ravel()))
-    tag = f"{dim}-D {'Timoshenko' if timo else 'Euler-Bernoulli'} {et}{' inclined' if inclined else ''}"
+    tag = f"{dim}-D {'Timoshenko' if timo else 'Euler-Bernoulli'} {et}{' inclined' if inclined else ''}{' drawn backwards' if reversed_ else ''}"
+    rv = ":reversed" if reversed_ else ""
     if asym > 1e-12:
-        raise Refuted(f"beam K ({tag}) is not symmetric: {asym:.2e}", signature=f"beam:{dim}:{timo}:{et}:sym", replay=dict(confirmed=True))
+        raise Refuted(f"beam K ({tag}) is not symmetric: {asym:.2e}", signature=f"beam:{dim}:{timo}:{et}:sym{rv if not inclined else ''}", replay=dict(confirmed=True))
     for nm, r in modes:
         e = float(np.abs(K @ r).max() / (sc * np.abs(r).max()))
         if e > 1e-10:
-            raise Refuted(f"beam K ({tag}): the rigid motion {nm} stores energy: |K r| / |K| = {e:.3e} (r'Kr / |K| = {float(r @ K @ r / sc):.3e})", cex=dict(mode=nm), signature=f"beam:{dim}:{timo}:{et}:rigid",
+            raise Refuted(f"beam K ({tag}): the rigid motion {nm} stores energy: |K r| / |K| = {e:.3e} (r'Kr / |K| = {float(r @ K @ r / sc):.3e})", cex=dict(mode=nm), signature=f"beam:{dim}:{timo}:{et}:rigid{rv if not inclined else ''}",
                           replay=dict(confirmed=True, err=e))
     w = np.linalg.eigvalsh((K + K.T) / 2)
     if w.min() < -1e-9 * w.max():
-        raise Refuted(f"beam K ({tag}) has a negative eigenvalue {w.min():.3e}", signature=f"beam:{dim}:{timo}:{et}:psd", replay=dict(confirmed=True))
+        raise Refuted(f"beam K ({tag}) has a negative eigenvalue {w.min():.3e}", signature=f"beam:{dim}:{timo}:{et}:psd{rv if not inclined else ''}", replay=dict(confirmed=True))
     nz = int((w < 1e-9 * w.max()).sum())
     if nz != len(modes):
-        raise Refuted(f"beam K ({tag}) has {nz} zero-energy modes, expected exactly the {len(modes)} rigid motions", signature=f"beam:{dim}:{timo}:{et}:rank", replay=dict(confirmed=True, zero_modes=nz))
+        raise Refuted(f"beam K ({tag}) has {nz} zero-energy modes, expected exactly the {len(modes)} rigid motions", signature=f"beam:{dim}:{timo}:{et}:rank{rv if not inclined else ''}", replay=dict(confirmed=True, zero_modes=nz))
     return Verdict(DISCHARGED, backend="native beam simulation (free beam)", detail=f"{n} dofs")
+
+
+def ob_beam_mass(dim, timo, et, inclined):
+    """beam mass matrix: symmetric, positive semi-definite, and the translational mass is right: t^T M t == rho A L for every unit translation t of the structure."""
+    import contextlib, io
+    from EasyFEA import Models, Simulations, Mesher, ElemType
+    from EasyFEA.Geoms import Domain, Point, Line
+    with contextlib.redirect_stdout(io.StringIO()):
+        sect = Mesher().Mesh_2D(Domain(Point(), Point(0.3, 0.5)), elemType=ElemType.QUAD4)
+        L = 3.0
+        if dim == 1 or not inclined:
+            p2 = Point(L, 0, 0)
+        elif dim == 2:
+            p2 = Point(L * 0.6, L * 0.8, 0)
+        else:
+            p2 = Point(L / 3, 2 * L / 3, 2 * L / 3)
+        beam = Models.Beam.Isotropic(dim, Line(Point(0, 0, 0), p2, L / 3), sect, 210e3, v=0.3)
+        mesh = Mesher().Mesh_Beams([beam], elemType=ElemType[et])
+        simu = Simulations.Beam(mesh, beam, useTimoshenko=timo)
+        simu.rho = 7.8
+        simu.Solver_Set_Hyperbolic_Algorithm(0.1)
+        M = simu.Get_K_C_M_F()[2].toarray()
+    dn = simu.Get_dof_n()
+    Nn = mesh.Nn
+    tag = f"{dim}-D {'Timoshenko' if timo else 'Euler-Bernoulli'} {et}{' inclined' if inclined else ''}"
+    asym = float(np.abs(M - M.T).max() / np.abs(M).max())
+    if asym > 1e-12:
+        raise Refuted(f"beam M ({tag}) not symmetric: {asym:.3e}", signature=f"beam_mass:{dim}:{timo}:{et}:sym", replay=dict(confirmed=True))
+    w = np.linalg.eigvalsh((M + M.T) / 2)
+    if w.min() < -1e-10 * w.max():
+        raise Refuted(f"beam M ({tag}) has a negative eigenvalue {w.min():.3e}", signature=f"beam_mass:{dim}:{timo}:{et}:psd", replay=dict(confirmed=True))
+    want = 7.8 * 0.3 * 0.5 * L
+    n = 0
+    for d in range(dim):
+        t = np.zeros((Nn, dn))
+        t[:, d] = 1.0
+        got = float(t.ravel() @ M @ t.ravel())
+        n += 1
+        if abs(got - want) > 1e-9 * want:
+            raise Refuted(f"beam M ({tag}): translational mass along {'xyz'[d]} is {got:.6f}, rho A L = {want:.6f}", cex=dict(direction=d), signature=f"beam_mass:{dim}:{timo}:{et}:translation",
+                          replay=dict(confirmed=True, got=got, want=want))
+    return Verdict(DISCHARGED, backend="native beam simulation", detail=f"translational mass {want:.4f}, min eig {w.min():.2e}", sub=n + 2)
 
 
 def build(tier, seed):
@@ -415,6 +459,19 @@ def build(tier, seed):
                     obs.append(Ob(f"C02.beam.{dim}d.{'timoshenko' if timo else 'bernoulli'}.{et}{'.inclined' if inclined else ''}", ob_beam_kernel, (dim, timo, et, inclined), "X",
                                   ("EasyFEA/FEM/Elems/_beam.py::_Timoshenko.Get_beam_B_e_pg" if timo else "EasyFEA/FEM/Elems/_beam.py::_Euler_Bernoulli.Get_beam_B_e_pg", "EasyFEA/Simulations/_beam.py::Beam.Construct_local_matrix_system"),
                                   bound="one free 3-element beam", clause="symmetric, PSD, K r == 0 for every rigid motion, exactly that many zero-energy modes", timeout=600))
+    for dim in (1, 2, 3):
+        for timo in (False, True):
+            for inclined in ((False, True) if dim > 1 else (False,)):
+                obs.append(Ob(f"C02.beam.{dim}d.{'timoshenko' if timo else 'bernoulli'}.SEG2{'.inclined' if inclined else ''}.reversed", ob_beam_kernel, (dim, timo, "SEG2", inclined, True), "X",
+                              ("EasyFEA/FEM/Elems/_beam.py::_Timoshenko.Get_beam_B_e_pg" if timo else "EasyFEA/FEM/Elems/_beam.py::_Euler_Bernoulli.Get_beam_B_e_pg", "EasyFEA/FEM/_group_elem.py::_GroupElem.Get_F_e_pg"),
+                              bound="one free 3-element beam drawn from its far end to the origin", clause="symmetric, PSD, K r == 0 for every rigid motion, exactly that many zero-energy modes", timeout=600))
+    for dim in (1, 2, 3):
+        for timo in (False, True):
+            for et in ("SEG2", "SEG3"):
+                for inclined in ((False, True) if dim > 1 else (False,)):
+                    obs.append(Ob(f"C02.beam.mass.{dim}d.{'timoshenko' if timo else 'bernoulli'}.{et}{'.inclined' if inclined else ''}", ob_beam_mass, (dim, timo, et, inclined), "X",
+                                  ("EasyFEA/FEM/Operators/Bilinear.py::BeamMass", "EasyFEA/Models/Beam/_beam.py::BeamStructure.Calc_M_e_pg"), bound="one 3-element beam",
+                                  clause="beam mass matrix symmetric, positive semi-definite, translational mass == rho A L per direction", timeout=300))
     obs.append(Ob("C02.cache.transparent", C14.ob_cache_key, (), "B", ("EasyFEA/Utilities/_cache.py::cache_computed_values",),
                   bound="7 call spellings x all ordered pairs", clause="cached geometric factors (weighted Jacobians, B, N) are those the functions compute for the requested arguments"))
     obs.append(Ob("canary.rank.TRI3.thermal", ob_rank, ("TRI3", "thermal", 0, True), "B", expect=REFUTED, timeout=300))
